@@ -455,6 +455,17 @@ func (w *World) Project() Obs {
 // SamePeriod reports whether the TOTP period of T0 is still the current one
 // (otherwise the three reference codes are no longer the valid ones and the
 // scenario is re-run).
+// refreshT0 moves the reference instant of the TOTP codes into the current period. Code ids keep their
+// meaning (1 = this period's code, 3 = the next one's); a last-used code stored before the move is then
+// nobody's current code any more, which is also how the library sees it.
+func (w *World) refreshT0() bool {
+	if now := time.Now(); now.Unix()/30 != w.T0.Unix()/30 {
+		w.T0 = now
+		return true
+	}
+	return false
+}
+
 func (w *World) SamePeriod() bool {
 	// codes 1 (period of T0) and 3 (next period) stay valid across one
 	// boundary (totp.Validate allows one period of skew either way); code 2
